@@ -382,35 +382,46 @@ class Translator:
 
     # ---------------- constants probe
     def resolve(self, cc="cc"):
-        names = sorted(self.consts)
-        types = sorted(self.sizeofs)
-        if not names and not types:
+        exprs = {}
+        for nm in sorted(self.consts):
+            exprs["c_%s" % nm] = nm
+        for t in sorted(self.sizeofs):
+            exprs["c_sizeof_%s" % _ident(t)] = "sizeof(%s)" % t
+        if not exprs:
             return ""
-        src = self.tu_text + "\n#include <stdio.h>\nint main(void){\n"
-        for nm in names:
-            src += '  printf("c_%s %%lld\\n", (long long)(%s));\n' % (nm, nm)
-        for t in types:
-            src += '  printf("c_sizeof_%s %%lld\\n", (long long)sizeof(%s));\n' % (_ident(t), t)
-        src += "  return 0; }\n"
-        p = os.path.join(self.workdir, "constprobe.c")
-        exe = os.path.join(self.workdir, "constprobe")
-        open(p, "w").write(src)
-        r = subprocess.run([cc, "-std=gnu11", "-w", "-D_POSIX_C_SOURCE=200809L"] + ["-I" + i for i in self.incs] + ["-c", p, "-o", exe + ".o"],
-                           stdout=subprocess.PIPE, stderr=subprocess.PIPE, text=True, timeout=120)
-        if r.returncode != 0:
-            raise Unsupported("UNSUPPORTED const probe does not compile: " + r.stderr[-400:])
-        # the TU may define main-less library code with undefined externals: link leniently
-        r = subprocess.run([cc, exe + ".o", "-o", exe, "-Wl,--unresolved-symbols=ignore-all", "-lpthread"],
-                           stdout=subprocess.PIPE, stderr=subprocess.PIPE, text=True, timeout=120)
-        if r.returncode != 0:
-            raise Unsupported("UNSUPPORTED const probe does not link: " + r.stderr[-400:])
-        r = subprocess.run([exe], stdout=subprocess.PIPE, stderr=subprocess.PIPE, text=True, timeout=60)
-        defs = []
-        for line in r.stdout.split("\n"):
-            if line.strip():
-                nm, val = line.split()
-                defs.append("Definition %s : Z := (%s)." % (nm, val))
-        return "\n".join(defs) + "\n"
+        vals = probe_consts(self.tu_text, self.incs, exprs, self.workdir, cc)
+        return "".join("Definition %s : Z := (%s).\n" % (k, vals[k]) for k in sorted(vals))
+
+
+def probe_consts(tu_text, incs, exprs, workdir, cc="cc"):
+    """Evaluate integer constant expressions in the context of a TU with the real compiler:
+    each becomes the initialiser of a global and is read back from the generated assembly."""
+    src = tu_text + "\n"
+    for k, e in exprs.items():
+        src += "const long long verif_%s = (long long)(%s);\n" % (k, e)
+    p = os.path.join(workdir, "constprobe.c")
+    open(p, "w").write(src)
+    r = subprocess.run([cc, "-std=gnu11", "-w", "-O0", "-S", "-D_POSIX_C_SOURCE=200809L"] + ["-I" + i for i in incs] + [p, "-o", "-"],
+                       stdout=subprocess.PIPE, stderr=subprocess.PIPE, text=True, timeout=120)
+    if r.returncode != 0:
+        raise Unsupported("UNSUPPORTED const probe does not compile: " + r.stderr[-400:])
+    vals = {}
+    lines = r.stdout.split("\n")
+    for i, line in enumerate(lines):
+        m = re.match(r"^verif_(\w+):", line)
+        if m:
+            for l2 in lines[i + 1:i + 4]:
+                m2 = re.match(r"\s+\.quad\s+(-?\d+)", l2)
+                if m2:
+                    vals[m.group(1)] = int(m2.group(1))
+                    break
+                if re.match(r"\s+\.zero\s+8", l2):
+                    vals[m.group(1)] = 0
+                    break
+    missing = [k for k in exprs if k not in vals]
+    if missing:
+        raise Unsupported("UNSUPPORTED const probe: no value for %s" % missing)
+    return vals
 
 
 def _widens(src, dst):
